@@ -212,7 +212,10 @@ def run_c17(pid, P, tier, seed):
                     vo = ops[:i - 1] + ['failat 0 %d' % k, ops[i - 1]]
                     if kind != 'create' or True:
                         vo += ['err 0'] if kind != 'create' else []
-                    if k % 2 == 0 and kind != 'create':
+                    if k % 3 == 2 and kind == 'parse':
+                        # the object stays defined after a failed parse: parse again, twice
+                        vo += [ops[i - 1], ops[i - 1], 'err 0']
+                    elif k % 2 == 0 and kind != 'create':
                         # the same object is defined again and used: it must behave like a fresh one
                         redo = [x for x in ops if x.split()[0] in ('def', 'descr', 'parse') and x.split()[1] == '0']
                         vo += redo + ['err 0']
